@@ -7,7 +7,10 @@ import (
 	"encoding/json"
 	"fmt"
 	"go/ast"
+	"go/constant"
 	"go/parser"
+	"go/token"
+	"go/types"
 	"math"
 	"os"
 	"os/exec"
@@ -17,6 +20,7 @@ import (
 	"strconv"
 	"strings"
 	"time"
+	"unicode/utf8"
 
 	"github.com/octohelm/gengo/pkg/gengo"
 	"github.com/octohelm/gengo/pkg/gengo/snippet"
@@ -66,7 +70,7 @@ var c10Roots = []struct {
 	{"*float64", reflect.TypeFor[*float64]()},
 }
 
-var c10Strings = []string{"a", "b\"c", "x y", "`", "é", "line\nbreak", "tab\t", "\xff\xfe", "", "nul\x00", "back\\slash", "'", "日本", "%v @x"}
+var c10Strings = []string{"a", "b\"c", "x y", "`", "é", "line\nbreak", "tab\t", "\xff\xfe", "", "nul\x00", "back\\slash", "'", "日本", "%v @x", "crlf\r\nline\r\n", "cr\rmid", "two\nlines", "tail\n", "\ufeffbom", "sep\u2028x", "\a\b\f\v\x7f", "multi\nline `tick`\n"}
 var c10Ints = []int64{0, 1, -1, 42, 97, 127, -128, 255, 1 << 31, -(1 << 31), math.MaxInt64, math.MinInt64, 65, 10, 39}
 var c10Floats = []float64{0, 0.5, 1, 1e21, -2.25, 3, 1e-7, math.MaxFloat32, math.SmallestNonzeroFloat64, 0.1, -0.0, 123456789.125, math.MaxFloat64}
 
@@ -556,6 +560,187 @@ func (c *vlitCase) ensureSampled() {
 	}
 }
 
+// ---------------------------------------------------------------- leaves: every scalar printer, evaluated in-process
+
+// leafCase: one scalar value (kind + text form), rendered with snippet.Value and evaluated back with go/types.
+type leafCase struct {
+	Kind string `json:"kind"` // string | int8 … uint64 | float32 | float64 | bool
+	Hex  string `json:"hex,omitempty"`
+	I    int64  `json:"i,omitempty"`
+	U    uint64 `json:"u,omitempty"`
+	F    string `json:"f,omitempty"` // float bits, hex
+}
+
+func (c *leafCase) value() any {
+	switch c.Kind {
+	case "string":
+		return unhx(c.Hex)
+	case "int":
+		return int(c.I)
+	case "int8":
+		return int8(c.I)
+	case "int16":
+		return int16(c.I)
+	case "int32":
+		return int32(c.I)
+	case "int64":
+		return c.I
+	case "uint":
+		return uint(c.U)
+	case "uint8":
+		return uint8(c.U)
+	case "uint16":
+		return uint16(c.U)
+	case "uint32":
+		return uint32(c.U)
+	case "uint64":
+		return c.U
+	case "float32":
+		b, _ := strconv.ParseUint(c.F, 16, 64)
+		return math.Float32frombits(uint32(b))
+	case "float64":
+		b, _ := strconv.ParseUint(c.F, 16, 64)
+		return math.Float64frombits(b)
+	case "bool":
+		return c.I != 0
+	}
+	return nil
+}
+
+func (c *leafCase) Line() string { return "" }
+func (c *leafCase) Run() string {
+	return guard(func() string {
+		w := newVWriter()
+		return "ok " + hx(w.render(snippet.Value(c.value())))
+	})
+}
+
+func (c *leafCase) Oracle(out string) string {
+	if out == "panic" {
+		return "rendering a scalar panicked"
+	}
+	lit := unhx(strings.Fields(out + " ")[1])
+	v := c.value()
+	// the literal, converted to the value's type as `var x T = <lit>` does, must be a constant equal to the value
+	tv, err := types.Eval(token.NewFileSet(), nil, token.NoPos, c.Kind+"("+lit+")")
+	if err != nil {
+		return fmt.Sprintf("the literal %s rendered for the %s %#v does not evaluate as a constant of that type: %v", clip(lit, 200), c.Kind, v, err)
+	}
+	if tv.Value == nil {
+		return fmt.Sprintf("the literal %s rendered for the %s %#v is not a constant expression", clip(lit, 200), c.Kind, v)
+	}
+	same := false
+	switch x := v.(type) {
+	case string:
+		same = tv.Value.Kind() == constant.String && constant.StringVal(tv.Value) == x
+	case bool:
+		same = tv.Value.Kind() == constant.Bool && constant.BoolVal(tv.Value) == x
+	case float32:
+		f, _ := constant.Float32Val(tv.Value)
+		same = f == x || (x != x && f != f)
+	case float64:
+		f, _ := constant.Float64Val(tv.Value)
+		same = f == x
+	default:
+		rv := reflect.ValueOf(v)
+		if rv.CanInt() {
+			i, ok := constant.Int64Val(constant.ToInt(tv.Value))
+			same = ok && i == rv.Int()
+		} else {
+			u, ok := constant.Uint64Val(constant.ToInt(tv.Value))
+			same = ok && u == rv.Uint()
+		}
+	}
+	if !same {
+		return fmt.Sprintf("the literal %s evaluates to %s, the %s value is %#v", clip(lit, 200), clip(tv.Value.ExactString(), 200), c.Kind, v)
+	}
+	return ""
+}
+func (c *leafCase) Shrinks() []Case {
+	var out []Case
+	if c.Kind == "string" {
+		b := []byte(unhx(c.Hex))
+		for i := range b {
+			n := append(append([]byte{}, b[:i]...), b[i+1:]...)
+			out = append(out, &leafCase{Kind: "string", Hex: hx(string(n))})
+		}
+	}
+	return out
+}
+func (c *leafCase) Key() string { b, _ := json.Marshal(c); return string(b) }
+func (c *leafCase) Classes() []string {
+	cl := []string{"kind:" + c.Kind}
+	if c.Kind == "string" {
+		s := unhx(c.Hex)
+		for _, f := range []struct{ n, chars string }{{"cr", "\r"}, {"lf", "\n"}, {"quote", "\""}, {"backquote", "`"}, {"backslash", "\\"}, {"control", "\x00\a\b\f\v\x7f"}} {
+			if strings.ContainsAny(s, f.chars) {
+				cl = append(cl, "string:"+f.n)
+			}
+		}
+		if !utf8.ValidString(s) {
+			cl = append(cl, "string:invalid-utf8")
+		}
+	}
+	return cl
+}
+func (c *leafCase) Nontrivial() bool { return c.Kind != "bool" }
+
+var c10LeafAlphabet = []string{"a", "b", " ", "\"", "`", "\\", "\n", "\r", "\r\n", "\t", "\x00", "\x7f", "é", "日", "\ufeff", "\u2028", "\u0085", "\xff", "\xc3", "'", "%", "@", "$", "{", "\U0001F600"}
+
+func genScalarLeaf(r *Rng) *leafCase {
+	switch r.Intn(10) {
+	case 0, 1, 2, 3, 4:
+		var b strings.Builder
+		for n := r.Intn(9); n > 0; n-- {
+			b.WriteString(Pick(r, c10LeafAlphabet))
+		}
+		return &leafCase{Kind: "string", Hex: hx(b.String())}
+	case 5, 6:
+		k := Pick(r, []string{"int", "int8", "int16", "int32", "int64"})
+		bits := map[string]uint{"int": 64, "int8": 8, "int16": 16, "int32": 32, "int64": 64}[k]
+		v := int64(r.U64()) >> (64 - bits)
+		switch r.Intn(5) {
+		case 0:
+			v = -(1 << (bits - 1))
+		case 1:
+			v = 1<<(bits-1) - 1
+		case 2:
+			v = int64(r.Intn(300)) - 150
+		}
+		v = v << (64 - bits) >> (64 - bits)
+		return &leafCase{Kind: k, I: v}
+	case 7:
+		k := Pick(r, []string{"uint", "uint8", "uint16", "uint32", "uint64"})
+		bits := map[string]uint{"uint": 64, "uint8": 8, "uint16": 16, "uint32": 32, "uint64": 64}[k]
+		v := r.U64() >> (64 - bits)
+		if r.Chance(25) {
+			v = ^uint64(0) >> (64 - bits)
+		}
+		return &leafCase{Kind: k, U: v}
+	case 8:
+		if r.Chance(50) {
+			f := Pick(r, []float32{0, 1, -1, 0.1, math.MaxFloat32, math.SmallestNonzeroFloat32, 1e10, 16777216, 16777217, 1e-10, 3.4e38})
+			if r.Chance(50) {
+				f = math.Float32frombits(uint32(r.U64()))
+				if f != f || math.IsInf(float64(f), 0) {
+					f = 1.5
+				}
+			}
+			return &leafCase{Kind: "float32", F: strconv.FormatUint(uint64(math.Float32bits(f)), 16)}
+		}
+		f := Pick(r, c10Floats)
+		if r.Chance(60) {
+			f = math.Float64frombits(r.U64())
+			if f != f || math.IsInf(f, 0) {
+				f = 2.5
+			}
+		}
+		return &leafCase{Kind: "float64", F: strconv.FormatUint(math.Float64bits(f), 16)}
+	default:
+		return &leafCase{Kind: "bool", I: int64(r.Intn(2))}
+	}
+}
+
 type vlitCaseSingle struct{ *vlitCase }
 
 func init() {
@@ -576,6 +761,13 @@ func init() {
 		tier := os.Getenv("VH_TIER")
 		return vlitBatch(tier)(cases)
 	}
-	register(&Property{ID: "C10", Streams: []*Stream{st}})
+	leaves := &Stream{
+		Name: "leaves", Quick: 6000, Thorough: 60000,
+		New: func() Case { return &leafCase{} },
+		Gen: func(r *Rng, i int) Case { return genScalarLeaf(r) },
+		ShrinkBudget: 40, MaxShrinks: 5,
+		Rule: "scalar leaves on their own: strings of 0–8 pieces over an alphabet of 25 (quotes, backquote, backslash, LF, CR, CRLF, TAB, NUL, DEL, BOM, U+2028, U+0085, invalid UTF-8 bytes, astral rune, %, @, $), every integer kind at its extremes and at random, float32/float64 edge values and random bit patterns (finite), booleans; rendered with snippet.Value; oracle, in-process on every case: `T(<literal>)` evaluated by go/types is a constant equal to the value (strings byte for byte)",
+	}
+	register(&Property{ID: "C10", Streams: []*Stream{st, leaves}})
 	_ = json.Marshal
 }
